@@ -75,6 +75,7 @@ pub const NAME_POOL: &[&str] = &[
     "data", "kind", "name", "value", "Foo", "Bar", "Baz", "Alpha", "Beta", "Gamma", "Ok", "Err",
     "None", "Some", "start", "end", "héllo", "名前", "", "field_with_a_rather_long_name_0123456789",
     "f0", "f1", "f2", "f3", "f4", "f5", "f6", "f7", "V0", "V1", "V2", "V3", "V4", "V5", "V6", "V7",
+    "A", "B", "Q", "K", "kb", "Kb", "KB", "foo", "FOO", "Id", "ID", "it's", "a b", "µ", "Ω",
 ];
 
 #[derive(Clone, Debug, PartialEq, Eq, Hash, Serialize, Deserialize)]
@@ -398,6 +399,10 @@ impl Serialize for Typed<'_> {
                 s.serialize_newtype_struct(n.0, &Typed(inner, v))
             }
             (Shape::Seq(elem), Value::List(vs)) => {
+                if vs.len() % 3 == 2 {
+                    // exact-size iterator through collect_seq, as std collections do
+                    return s.collect_seq(vs.iter().map(|v| Typed(elem, v)));
+                }
                 let mut q = s.serialize_seq(Some(vs.len()))?;
                 for v in vs {
                     q.serialize_element(&Typed(elem, v))?;
@@ -405,6 +410,11 @@ impl Serialize for Typed<'_> {
                 q.end()
             }
             (Shape::UnsizedSeq(elem), Value::List(vs)) => {
+                if vs.len() % 2 == 1 {
+                    // an iterator without an exact size hint, handed to collect_seq: serde's
+                    // contract makes this a sequence of unknown length as well
+                    return s.collect_seq(vs.iter().filter(|_| true).map(|v| Typed(elem, v)));
+                }
                 let mut q = s.serialize_seq(None)?;
                 for v in vs {
                     q.serialize_element(&Typed(elem, v))?;
@@ -434,6 +444,9 @@ impl Serialize for Typed<'_> {
                 q.end()
             }
             (Shape::UnsizedMap(k, v), Value::Map(pairs)) => {
+                if pairs.len() % 2 == 1 {
+                    return s.collect_map(pairs.iter().filter(|_| true).map(|(a, b)| (Typed(k, a), Typed(v, b))));
+                }
                 let mut q = s.serialize_map(None)?;
                 for (kv, vv) in pairs {
                     q.serialize_key(&Typed(k, kv))?;
@@ -862,5 +875,23 @@ pub fn render(shape: &Shape, value: &Value) -> String {
         format!("{}…", &s[..cut])
     } else {
         s
+    }
+}
+
+/// Observes the `is_human_readable()` flag a serializer / deserializer reports (compact binary
+/// formats must report `false`; types like the std::net addresses choose their form by it).
+#[derive(Debug, Clone, Copy, PartialEq)]
+pub struct HrProbe(pub bool);
+impl Serialize for HrProbe {
+    fn serialize<S: Serializer>(&self, s: S) -> Result<S::Ok, S::Error> {
+        let hr = s.is_human_readable();
+        s.serialize_bool(hr)
+    }
+}
+impl<'de> Deserialize<'de> for HrProbe {
+    fn deserialize<D: Deserializer<'de>>(d: D) -> Result<Self, D::Error> {
+        let hr = d.is_human_readable();
+        let _ = bool::deserialize(d)?;
+        Ok(HrProbe(hr))
     }
 }
